@@ -1,20 +1,28 @@
 #!/bin/sh
 # Usage: ./check.sh <Cxx> quick|thorough      run the check of one property
 #        ./check.sh replay <file>             re-execute a replay file
+#        ./check.sh selftest <what>           determinism / probes self-tests
 # Rebuilds the simulator (and with it futures-intrusive from /repo's working tree, hooks on)
 # before every invocation. Exit: 0 held / 1 violation / 2 harness or build error.
 ROOT="$(cd "$(dirname "$0")" && pwd)"
 export CARGO_NET_OFFLINE=true
 cd "$ROOT/sim" || exit 2
-if ! cargo build --release --offline >"$ROOT/sim/target-build.log" 2>&1; then
-    mkdir -p "$ROOT/sim/target" 2>/dev/null
-    tail -40 "$ROOT/sim/target-build.log" >&2
-    echo "harness error: simulator build failed" >&2
-    exit 2
-fi
+build() {
+    if ! cargo build --offline "$@" >"$ROOT/sim/target-build.log" 2>&1; then
+        tail -40 "$ROOT/sim/target-build.log" >&2
+        echo "harness error: simulator build failed" >&2
+        exit 2
+    fi
+}
+build --release
+# C01 spends half of its budget on a build with debug assertions and overflow checks
+case "$1" in C01|selftest|setup) build --profile checked ;; esac
+# a replay recorded on the checked build is re-executed there
+if [ "$1" = replay ] && grep -q '"runner": *"checked"' "$2" 2>/dev/null; then build --profile checked; fi
 BIN="$ROOT/sim/target/release/simctl"
 cd "$ROOT" || exit 2
 case "$1" in
+    setup) exit 0 ;;
     replay) exec "$BIN" replay "$2" ;;
     selftest) shift; exec "$BIN" selftest "$@" --root "$ROOT" ;;
     *) exec "$BIN" check "$1" --tier "${2:-${VERIF_TIER:-quick}}" --root "$ROOT" ;;
